@@ -81,7 +81,13 @@ func (s *gsim) byzSplit() {
 	k.Fault("byzantine-split-vote")
 	k.Event("byz-split", "voter %d stage=%d round=%d %s#%d | %s#%d", a, stage, round, cu.Short(x.Hash), x.Number, cu.Short(y.Hash), y.Number)
 	for _, h := range s.honest() {
-		switch k.Choose(4, "byz-split-show") {
+		switch k.Choose(5, "byz-split-show") {
+		case 4: // the SAME vote twice, the second copy under another valid signature: a repeat, not an equivocation
+			v := gp.Vote{Hash: x.Hash, Number: uint32(x.Number)}
+			rx2 := rawOf(&gp.VoteMessage{Round: round, SetID: setID, Message: gp.SignedMessage{Stage: stage, BlockHash: v.Hash, Number: v.Number,
+				Signature: altSignVote(a, stage, v, round, setID, 1), AuthorityID: pkb(s.keys[a])}})
+			s.pending = append(s.pending, wire{a, h.id, rx, "byz-split"}, wire{a, h.id, rx2, "byz-resigned"})
+			k.Probe("same-vote-two-valid-signatures")
 		case 0:
 			s.pending = append(s.pending, wire{a, h.id, rx, "byz-split"})
 		case 1:
@@ -205,7 +211,14 @@ func (s *gsim) byzCommit() {
 	} else {
 		entries := k.Choose(s.n+4, "byz-entries")
 		for i := 0; i < entries; i++ {
-			switch c := k.Choose(12, "byz-entry-kind"); {
+			switch c := k.Choose(13, "byz-entry-kind"); {
+			case c == 12 && len(adv) > 0: // ONE precommit of an adversary key listed twice, with two different valid signatures
+				a := adv[k.Choose(len(adv), "byz-key")]
+				b := s.anyBlock("byz-entry-any-block")
+				v := gp.Vote{Hash: b.Hash, Number: uint32(b.Number)}
+				add(pkb(s.keys[a]), signVote(s.keys[a], gp.VerifPrecommit, v, round, setID), v)
+				add(pkb(s.keys[a]), altSignVote(a, gp.VerifPrecommit, v, round, setID, byte(k.Choose(3, "byz-alt-nonce"))), v)
+				k.Probe("same-precommit-two-valid-signatures")
 			case c >= 10 && len(pre) > 0: // a second entry, with a forged signature and another vote, for an authority that is already listed
 				j := k.Choose(len(pre), "byz-forge-second-for")
 				g := garbage
